@@ -205,6 +205,51 @@ SMS_WILD = [
 ]
 
 
+# C01 quantifies over ANY attached map: columns that go backwards on a line, segments beyond the line / the text, repeated columns
+SMS_WILD_SMALL = [
+    ('wild:sms(abcd,two segments any columns)', SM('abcd', '?AAA,?AAC', ('o.js',), (), (), None, 12, False)),
+    ('wild:sms(ab/cd,segments on both lines any columns)', SM('ab\ncd', 'CAAA,?AAC;?AAC', ('o.js',), (), (), None, 8, False)),
+    ('wild:sms(abc,three segments, unmapped in the middle)', SM('abc', '?AAA,?,?AAC', ('o.js',), (), (), None, 6, False)),
+    ('wild:concat[sms(abcd any columns),rawstr]', CC(SM('abcd', 'EAAA,?AAC,?AAC', ('o.js',), (), (), None, 6, False), RS('!'))),
+    ('wild:replace(sms(abcd any columns),[sym X])', RP(SM('abcd', 'EAAA,?AAC', ('o.js',), ('abcd',), (), None, 8, False), (Q, Q, 'X'))),
+    ('wild:cached(sms(abcd any columns)) after map', CA(SM('abcd', 'EAAA,?AAC', ('o.js',), (), (), None, 8, False)), dict(history=['map1'])),
+]
+
+
+# multi-byte UTF-8 texts (C01, C07, C17, C19 quantify over them; the position properties C02-C04 are stated for ASCII)
+MB_TREES = [
+    ('mb:orig e-acute ? ; euro ?', O('\u00e9?;\u20ac?')),
+    ('mb:concat[orig e-acute?,rawstr euro!,raw emoji]', CC(O('\u00e9?'), RS('\u20ac!'), R('\U0001F600\n!'))),
+    ('mb:sms(e-acute b euro d, symbolic columns)', SM('\u00e9b\u20acd\nx', 'AAAA,?AAC,?AAC;AACA', ('o.js',), (), (), None, 8, False)),
+    ('mb:replace(orig e-acute;euro b,[X at char boundaries])', RP(O('\u00e9;\u20acb'), (2, 3, 'X'), (3, 6, '\u00fc\n'))),
+    ('mb:cached(concat[orig euro?/,rawstr e-acute]) after stream', CA(CC(O('\u20ac?\n'), RS('\u00e9'))), dict(history=['c1f0'])),
+    ('mb:replace(sms(e-acute b euro d),[b -> Y])', RP(SM('\u00e9b\u20acd', 'AAAA,CAAC,CAAC', ('o.js',), ('\u00e9b\u20acd',)), (2, 3, 'Y'))),
+]
+
+
+def mb_jobs(props, what=None):
+    def f(tier, seed):
+        jobs = []
+        for t in MB_TREES:
+            p_ = dict(tree=t[1], props=props, subs=False)
+            if what: p_['what'] = what
+            if len(t) > 2: p_.update(t[2])
+            jobs.append(J('tree:' + t[0], 'jobs.streams:tree_job', p_, timeout=600))
+        return jobs
+    return f
+
+
+def wild_small_jobs(props):
+    def f(tier, seed):
+        jobs = []
+        for t in SMS_WILD_SMALL:
+            p_ = dict(tree=t[1], props=props, subs=False, what=['source', 'c1f0', 'c0f0'])
+            if len(t) > 2: p_.update(t[2])
+            jobs.append(J('tree:' + t[0], 'jobs.streams:tree_job', p_, timeout=600))
+        return jobs
+    return f
+
+
 def SMC(text, outer, outer_sources, inner, inner_sources, original, name='i.js', outer_contents=(), inner_contents=(), outer_names=(), inner_names=(), remove=False, max=5, root=None):
     t = SM(text, outer, outer_sources, outer_contents, outer_names, root, max)
     t['name'] = name
@@ -537,12 +582,12 @@ def tree_jobs(props):
     return f
 
 
-TREE_BOUNDS = {'quick': 'source trees of the catalog lib/props.py:TREES_QUICK - leaves OriginalSource / RawSource / RawStringSource / RawBufferSource with <= 4 symbolic bytes per tree over the alphabet {a ; } space \\n} (raw leaves: {a, \\n}), ConcatSource with <= 3 children, nested boxed ConcatSource to depth 2, empty children; all four (columns x final) streams, source(), map() for both column settings',
+TREE_BOUNDS = {'quick': 'source trees of the catalog lib/props.py:TREES_QUICK - leaves OriginalSource / RawSource / RawStringSource / RawBufferSource with <= 4 symbolic bytes per tree over the alphabet {a ; } space \\n} (raw leaves: {a, \\n}), ConcatSource with <= 3 children, nested boxed ConcatSource to depth 2, empty children; all four (columns x final) streams, source(), map() for both column settings; CachedSource replay trees (catalog CACHED_QUICK: cache filled by map() or by a stream of the parent, then observed; two of them with rope.rs itself interpreted)',
                'thorough': 'as quick plus TREES_THOROUGH: <= 5 symbolic bytes, alphabet with { and tab, depth 3, <= 4 children'}
 RTREE_BOUNDS = {k: v + '; ReplaceSource over Raw/Original/ConcatSource/ReplaceSource inners with <= 4 replacements whose start/end are SYMBOLIC (every start <= end <= len+1, i.e. overlapping, nested, touching, beyond the end), contents from {empty, X, X\\n, X\\nY, \\nY}, named and unnamed, all three enforce values (catalog REPLACE_QUICK / REPLACE_THOROUGH)' for k, v in TREE_BOUNDS.items()}
 TREE_OUTSIDE = 'longer texts, other characters than the alphabet classes (line break / brace / blank / other), deeper trees than the catalog (argued by the contract-children induction of DESIGN 4.2, not machine-checked), non-ASCII text'
 TREE_ASSUME = ['symbolic text bytes range over the stated ASCII alphabet; the oracles depend only on character classes, which every explored path is checked to determine',
-               'Rope is used by contract "behaves as the flat string" (textmodel.py); the real rope.rs is the subject of C16']
+               'Rope is used by contract "behaves as the flat string" (textmodel.py) except in the jobs marked (real rope.rs), where rope.rs is interpreted from its MIR as well; the real rope.rs on its own is the subject of C16']
 
 # ------------------------------------------------------------------------------------------------ rope.rs (real code)
 ALLOBS = ['basic', 'bytes', 'chars', 'lines', 'pairs']
@@ -590,26 +635,26 @@ PROPS = {
                 outside='sequences longer than 3 mappings; simultaneous large values in several fields (argued by field independence, not discharged); deltas >= 2^30',
                 assumptions=['input mapping sequences are strictly sorted by generated position with lines >= 1 and original lines >= 1',
                              'decoder-vs-format jobs assume non-negative running values below 2^31 (as the property states)']),
-    'C01': dict(jobs=[tree_jobs(['C01']), replace_jobs(['C01']), sms_jobs(['C01']), combined_jobs(['C01']), cached_jobs(['C01'])], bounds=RTREE_BOUNDS, outside=TREE_OUTSIDE + '; CachedSource / SourceMapSource trees until their stages are registered', assumptions=TREE_ASSUME),
+    'C01': dict(jobs=[tree_jobs(['C01']), replace_jobs(['C01']), sms_jobs(['C01']), combined_jobs(['C01']), cached_jobs(['C01']), wild_small_jobs(['C01']), mb_jobs(['C01'], ['source', 'c1f0', 'c0f0'])], bounds=RTREE_BOUNDS, outside=TREE_OUTSIDE + '; CachedSource / SourceMapSource trees until their stages are registered', assumptions=TREE_ASSUME),
     'C02': dict(jobs=[tree_jobs(['C02']), replace_jobs(['C02']), sms_jobs(['C02']), combined_jobs(['C02']), cached_jobs(['C02'])], bounds=RTREE_BOUNDS, outside=TREE_OUTSIDE + '; CachedSource / SourceMapSource trees until their stages are registered', assumptions=TREE_ASSUME),
     'C03': dict(jobs=[tree_jobs(['C03']), replace_jobs(['C03']), sms_jobs(['C03']), combined_jobs(['C03']), cached_jobs(['C03'])], bounds=RTREE_BOUNDS, outside=TREE_OUTSIDE, assumptions=TREE_ASSUME),
     'C04': dict(jobs=[tree_jobs(['C04']), replace_jobs(['C04']), cached_jobs(['C04'])], bounds=RTREE_BOUNDS, outside=TREE_OUTSIDE, assumptions=TREE_ASSUME),
-    'C07': dict(jobs=[views_jobs], bounds={'quick': 'all trees of TREES_QUICK, REPLACE_QUICK (symbolic replacement ranges) and four SourceMapSource shapes: source(), rope(), buffer(), size(), to_writer() into a recording writer, and to_writer() into a writer that fails after a SYMBOLIC number k <= 64 of bytes', 'thorough': 'as quick'},
+    'C07': dict(jobs=[views_jobs, mb_jobs(['C07'], VIEWS)], bounds={'quick': 'all trees of TREES_QUICK, REPLACE_QUICK (symbolic replacement ranges) and four SourceMapSource shapes: source(), rope(), buffer(), size(), to_writer() into a recording writer, and to_writer() into a writer that fails after a SYMBOLIC number k <= 64 of bytes; binary (invalid UTF-8) leaves alone, in a ConcatSource, under a CachedSource and under a ReplaceSource (with and without replacements); every ReplaceSource tree also with rope() resp. size() as the FIRST call after the last mutation (no earlier observer has sorted the replacements)', 'thorough': 'as quick plus the views of TREES_THOROUGH, REPLACE_THOROUGH, the remaining SourceMapSource shapes, four combined-map shapes and the CachedSource trees of C10_QUICK'},
                 outside='multi-byte valid UTF-8 texts in the tree jobs (the lossy decoding of invalid buffers is covered by concrete binary leaves); the real Rope representation (C16)', assumptions=TREE_ASSUME + ['std::io::Write is modelled by a recording writer whose write_all accepts a prefix and then fails']),
-    'C08': dict(jobs=[sms_jobs(['C08'])], bounds={'quick': 'catalog lib/props.py:SMS_QUICK: SourceMapSource leaves over concrete ASCII texts (1-3 lines, empty lines, trailing line break, empty text) whose maps are mapping-string templates with up to 5 SYMBOLIC single-digit VLQ fields (values < 6; assumed sorted, inside the text, indices in range), 1-2 sources, 0-2 names, with/without sourcesContent, sourceRoot none / empty / r / r/; streamed directly in all four (columns x final) modes, through map(), as first and second child of a ConcatSource and under a ReplaceSource', 'thorough': 'as quick'},
+    'C08': dict(jobs=[sms_jobs(['C08'])], bounds={'quick': 'catalog lib/props.py:SMS_QUICK: SourceMapSource leaves over concrete ASCII texts (1-3 lines, empty lines, trailing line break, empty text) whose maps are mapping-string templates with up to 5 SYMBOLIC single-digit VLQ fields (values < 6; assumed sorted, inside the text, indices in range), 1-2 sources, 0-2 names, with/without sourcesContent, sourceRoot none / empty / r / r/; streamed directly in all four (columns x final) modes, through map(), as first and second child of a ConcatSource and under a ReplaceSource; two segments at one original position that differ only in having a name; a sourceRoot ending in several slashes; a child whose first line is unmapped and whose first mapping sits at the column where the previous sibling ended', 'thorough': 'as quick plus SMS_THOROUGH: 3-line texts with 6 symbolic fields, columns < 16 on an 8-character line, symbolic name and source indices, two empty lines, under nested boxed ConcatSource, between raw children, under a ReplaceSource with two symbolic replacements'},
                 outside='multi-digit VLQ fields in the given map (the decoder itself is C12), texts longer than 3 lines, the user-defined-source entry stream_chunks_default (same function underneath), non-ASCII text', assumptions=TREE_ASSUME),
     'C05': dict(jobs=[replace_jobs(['C05'])], bounds=RTREE_BOUNDS, outside='texts longer than the catalog, more than 4 replacements, non-ASCII texts (engine K covers the real String/Rope code on multi-byte shapes when registered); rope()/buffer()/size() views are C07', assumptions=TREE_ASSUME),
     'C06': dict(jobs=[tree_jobs(['C06']), replace_jobs(['C06']), sms_jobs(['C06']), cached_jobs(['C06'])], bounds=RTREE_BOUNDS, outside=TREE_OUTSIDE + '; SourceMapSource children with several sources/names until stage S2b is registered', assumptions=TREE_ASSUME),
-    'C09': dict(jobs=[combined_jobs(['C09'])], bounds={'quick': 'catalog COMBINED_QUICK: SourceMapSource with an inner source map over concrete ASCII texts (<= 2 lines); outer and inner maps are mapping-string templates with up to 3 SYMBOLIC single-digit fields (outer original column into the inner source, inner generated/original columns, lines), 1-3 outer sources (the inner source name in first or second place), 1-2 inner sources with/without contents, names on either side, original_source given or taken from the outer sourcesContent, remove_original_source both ways; all four streams and map(); also as a child of a ConcatSource', 'thorough': 'as quick'},
+    'C09': dict(jobs=[combined_jobs(['C09'])], bounds={'quick': 'catalog COMBINED_QUICK: SourceMapSource with an inner source map over concrete ASCII texts (<= 2 lines); outer and inner maps are mapping-string templates with up to 3 SYMBOLIC single-digit fields (outer original column into the inner source, inner generated/original columns, lines), 1-3 outer sources (the inner source name in first or second place), 1-2 inner sources with/without contents, names on either side, original_source given or taken from the outer sourcesContent, remove_original_source both ways; all four streams and map(); also as a child of a ConcatSource; consecutive generated lines that resolve to different files on consecutive original lines; the composed attribution is also read through map() for both column settings', 'thorough': 'as quick plus COMBINED_THOROUGH: 2-line inner source with symbolic outer line and column, symbolic inner source index over 2 inner sources, removal with a pass-through source, names on both sides, sourceRoot, a combined map under a ReplaceSource'},
                 outside='multi-digit VLQ fields, more than 2 lines, non-ASCII, inner maps that themselves came from a combination (just another map value here)', assumptions=TREE_ASSUME),
-    'C10': dict(jobs=[c10_jobs], bounds={'quick': 'catalog C10_QUICK: CachedSource over Original / Raw / ConcatSource / ReplaceSource / SourceMapSource inners (<= 3 symbolic bytes or symbolic replacement range / map digits), CachedSource inside a ConcatSource / under a ReplaceSource / nested; CALL HISTORY of 2-3 slots whose operation the solver picks from {map(columns), map(lines), stream(columns), stream(lines), source, hash, clone-and-continue-on-the-clone}, then source, size, all four streams and both maps are compared with the wrapped source alone (text, end info, per-position attribution; file and line for columns=false)', 'thorough': 'as quick'},
+    'C10': dict(jobs=[c10_jobs], bounds={'quick': 'catalog C10_QUICK: CachedSource over Original / Raw / ConcatSource / ReplaceSource / SourceMapSource inners (<= 3 symbolic bytes or symbolic replacement range / map digits), CachedSource inside a ConcatSource / under a ReplaceSource / nested; CALL HISTORY of 2-3 slots whose operation the solver picks from {map(columns), map(lines), stream(columns), stream(lines), source, hash, clone-and-continue-on-the-clone}, then source, size, all four streams and both maps are compared with the wrapped source alone (text, end info, per-position attribution; file and line for columns=false); two trees with rope.rs itself interpreted (the replay path measures Rope::lines / Rope::len), a cache filled by streaming over sources announced without content, two nested symbolic replacements replayed through rope()', 'thorough': 'as quick plus C10_THOROUGH: histories of up to 4 solver-picked calls, CachedSource over two symbolic replacements / symbolic map digits / a combined map / nested boxed ConcatSource / another CachedSource, two CachedSources in one ConcatSource, an empty ConcatSource, a RawBufferSource'},
                 outside='histories longer than 3 calls; texts beyond the catalog; attribution equality is per position, not chunk-for-chunk (the replay path legitimately coarsens chunks)', assumptions=TREE_ASSUME + ['DashMap is a finite map from MapOptions to heap cells (contracts.py); FxHasher::finish is an uninterpreted function of the written stream']),
     'C11': dict(jobs=[tree_jobs(['C11']), replace_jobs(['C11']), sms_jobs(['C11']), combined_jobs(['C11']), cached_jobs(['C11']), codec_c11], bounds=RTREE_BOUNDS, outside=TREE_OUTSIDE, assumptions=TREE_ASSUME),
-    'C13': dict(jobs=[c13_jobs], bounds={'quick': 'catalog lib/props.py:C13_QUICK: nested boxed ConcatSource groupings (depth <= 3) vs the flat concatenation; single-child / empty-children ConcatSource, boxing and a ReplaceSource without replacements vs the wrapped source; <= 4 symbolic bytes; text, per-position attribution through map() (both column settings) and through the chunk stream, end info', 'thorough': 'as quick'},
+    'C13': dict(jobs=[c13_jobs], bounds={'quick': 'catalog lib/props.py:C13_QUICK: nested boxed ConcatSource groupings (depth <= 3) vs the flat concatenation; single-child / empty-children ConcatSource, boxing and a ReplaceSource without replacements vs the wrapped source; <= 4 symbolic bytes; text, per-position attribution through map() (both column settings) and through the chunk stream, end info; a CachedSource with a warm cache inside a ConcatSource vs the same tree without the cache, with rope.rs itself interpreted', 'thorough': 'as quick plus C13_THOROUGH: 5 symbolic bytes, depth 4, SourceMapSource / ReplaceSource / CachedSource children inside nested groups, several empty children in a row, doubly boxed ReplaceSource, alphabet with { and tab'},
                 outside=TREE_OUTSIDE + '; typed nesting flattened by ConcatSource::new/add and CachedSource wrappers until their stages are registered', assumptions=TREE_ASSUME),
-    'C14': dict(jobs=[eq_jobs, neq_jobs], bounds={'quick': 'catalogs EQ_QUICK (13 shapes of every source type, symbolic bytes, built twice from the same ingredients; typed and through dyn Source; observer history of 1-2 solver-picked calls from {source, size, map, stream, hash, buffer, rope} applied to ONE of the two) and NEQ_QUICK (one-edit pairs): ==, == in the other direction, recorded Hash streams, clone == original with equal stream and equal source()', 'thorough': 'as quick'},
+    'C14': dict(jobs=[eq_jobs, neq_jobs], bounds={'quick': 'catalogs EQ_QUICK (13 shapes of every source type, symbolic bytes, built twice from the same ingredients; typed and through dyn Source; observer history of 1-2 solver-picked calls from {source, size, map, stream, hash, buffer, rope} applied to ONE of the two) and NEQ_QUICK (one-edit pairs): ==, == in the other direction, recorded Hash streams, clone == original with equal stream and equal source(); for equal values every observer (source, size, map, chunk stream incl. announced contents) must answer identically on the value with a history and on the untouched one', 'thorough': 'as quick plus one more solver-picked observer call in every history'},
                 outside='histories longer than 2; a BoxSource inside a BoxSource is identified with its content (the type-id contract looks through Arc layers); hash collisions of the final 64-bit hasher', assumptions=TREE_ASSUME + ['Hash is observed through a recording Hasher (write calls of std impls are contracts: str = bytes + terminator as one record)', 'TypeId contract: equal iff same concrete type']),
-    'C20': dict(jobs=[neq_jobs, eq_jobs], bounds={'quick': 'catalog NEQ_QUICK: 37 one-edit pairs (leaf text / name / type at equal text, every field of a replacement incl. order of equal keys, presence of a replacement, every part of an attached map, inner map, remove flag, original source, ConcatSource child / order / prefix / cut, wrapper) - the recorded hasher streams must differ and == must be false, typed and through dyn Source, also after one solver-picked observer call; reproducibility: EQ_QUICK (equal ingredients and any observer history give the identical stream)', 'thorough': 'as quick'},
+    'C20': dict(jobs=[neq_jobs, eq_jobs], bounds={'quick': 'catalog NEQ_QUICK: 37 one-edit pairs (leaf text / name / type at equal text, every field of a replacement incl. order of equal keys, presence of a replacement, every part of an attached map, inner map, remove flag, original source, ConcatSource child / order / prefix / cut, wrapper) - the recorded hasher streams must differ and == must be false, typed and through dyn Source, also after one solver-picked observer call; reproducibility: EQ_QUICK (equal ingredients and any observer history give the identical stream)', 'thorough': 'as quick plus two solver-picked observer calls before the comparison and the pairs compared in the other direction'},
                 outside='collisions of the final 64-bit hasher (excluded by the property); edits at depth > 2; the SourceMapSource name (deliberately not hashed)', assumptions=TREE_ASSUME + ['Hash is observed through a recording Hasher; nothing but the recorded write calls can influence a Hasher, so equal streams mean equal hashes in every process']),
     'C16': dict(jobs=[rope_jobs], bounds={'quick': 'rope.rs itself interpreted from MIR (no Rope contract): construction programs of the catalog ROPE_QUICK (<= 7 steps over new/from/from_iter/add/append/clone/get_byte_slice, <= 5 pieces incl. empty pieces, 1-4 byte UTF-8 characters, pieces cut inside lines; piece CONTENT symbolic over {a,b}, line structure concrete; slice bounds SYMBOLIC in [0, len+1]); every observer on every register, all pairs for ==, starts_with, == &str; get_byte at every index', 'thorough': 'as quick plus ROPE_THOROUGH'},
                 outside='programs longer than the catalog; symbolic line structure; Rc/Vec allocation behaviour (Rc::make_mut is modelled as copy-on-write), Hash of ropes', assumptions=['Vec / Rc / VecDeque / binary_search_by are contracts (msx/contracts.py); std::binary_search_by is modelled by the algorithm of Rust 1.82+ (returns the last of several equal keys) - rope.rs relies on that unspecified behaviour']),
@@ -617,7 +662,7 @@ PROPS = {
                 outside='three threads; schedules with more switches; weak memory (all accesses are SeqCst in the crate; the model is sequentially consistent); switch points inside user-defined child sources; only the cache-entry-replacement class of counterexamples has a native forcing harness (real threads + a gated inner source), other interleavings would be reported as inconclusive', assumptions=['DashMap is modelled as ONE shard with a reader/writer lock held by the guards the real API returns; std Mutex / OnceLock block']),
     'C19': dict(jobs=[rope_jobs, wi_jobs, codec_c11, c18_jobs], bounds={'quick': 'unsafe sites reached through checked contracts: slice::get_unchecked / str::get_unchecked / Rope::byte_slice_unchecked (rope jobs of C16 and WithIndices::substring with SYMBOLIC char indices incl. usize::MAX over multi-byte &str and Rope lines), String::from_utf8_unchecked in both encoders (ASCII obligation on every drain)', 'thorough': 'as quick'},
                 outside='the transmute in replace_source.rs: the replacement vector is only borrowed while &self is borrowed and mutation needs &mut self (a type-system argument, not a query); misaligned access / allocator-level UB (no raw pointer arithmetic in the crate); sanitizer runs are not part of this technique', assumptions=['an unchecked operation is modelled as its checked form whose failure is reported']),
-    'C17': dict(jobs=[codec_c17, sms_jobs(['C17'], True), combined_jobs(['C17']), tree_jobs(['C17']), replace_jobs(['C17']), cached_jobs(['C17'])],
+    'C17': dict(jobs=[codec_c17, sms_jobs(['C17'], True), combined_jobs(['C17']), tree_jobs(['C17']), replace_jobs(['C17']), cached_jobs(['C17']), mb_jobs(['C17']), wild_small_jobs(['C17'])],
                 bounds={'quick': 'decoder: inductive step over ONE byte (all 256 values) from every decoder state satisfying the stated invariant - covers strings of every length < 2^31; '
                                  'plus all byte strings of length <= 3 and continuation runs of 12/13/14/20 digits in each of the 5 field slots, debug and release MIR',
                         'thorough': 'as quick plus all byte strings of length <= 5, continuation runs 1..40'},
